@@ -171,6 +171,15 @@ def play_history(bins, beh, n, hist, rng):
                         m = re.match(r"cmd(\d+)$", (rr["out"].get("results") or [{}])[0].get("command", ""))
                         rn = int(m.group(1)) if m else -1
                     ev.append({"ev": "inflight_result_show", "rc": rr["rc"] if rr["rc"] is not None else -9, "run": rn, "fault": True})
+                    # the fault: SIGKILL to the whole group, or one of the catchable termination signals to monorail alone
+                    # (terminal closed, ^C, `kill`); the default disposition of each of them ends the process on the spot
+                    sig = rng.choice([signal.SIGKILL, signal.SIGTERM, signal.SIGINT, signal.SIGHUP])
+                    if sig != signal.SIGKILL:
+                        try:
+                            os.kill(p.pid, sig)
+                            p.wait(timeout=5)
+                        except (OSError, subprocess.TimeoutExpired):
+                            pass
                     fx.kill_group(p)
                     p.wait()
                     rc = p.returncode
